@@ -86,7 +86,7 @@ PROPS = {
                          {"section": "quote", "quick": 300, "thorough": 5000, "cover_ops": {"QS"}}],
             "rule": "cases = ToJSON of a derived frame; the bytes are parsed with the spec's RFC 8259 parser (validity) and every record must denote its row (ints exactly, floats parsing back to identical bits, "
                     "NaN/null as null, strings and names decoded with invalid bytes as U+FFFD); ReadJSON of the bytes must reproduce the frame where the property promises it"},
-    "C17": {"lean": ["QF.Props.C17"],
+    "C17": {"lean": ["QF.Props.C17", "QF.Props.C17Enum"], "extra_ns": ["QF.Props.C17Enum"],
             "sections": [{"section": "hist", "tag": "hist-wit17", "opt": "wit=enumdup", "quick": 1, "thorough": 1, "cover_ops": {"filter"}, "owns": (lambda m: True)},
                          dict({"section": "hist", "tag": "hist-enum", "opt": "enumheavy=1," + mix("filter", "sort", "distinct", "groupagg"), "quick": 200, "thorough": 2000}, cover_ops=None,
                               owns=lambda m: True),
@@ -109,7 +109,7 @@ PROPS = {
                          {"section": "csvraw", "tag": "csvrawfaults", "opt": "faults=1", "quick": 60, "thorough": 600, "cover_ops": {"C"}},
                          {"section": "csvread", "tag": "csvreadfaults", "opt": "faults=1", "quick": 400, "thorough": 4000, "cover_ops": {"CV"}}],
             "rule": "cases = (document, schedule, failing call number); csvraw enumerates EVERY call number of the chosen schedule per document; distinct by transcript line"},
-    "C10": {"lean": ["QF.Props.C10", "QF.Props.C06", "QF.Props.C06Apply", "QF.Props.C08Project"], "extra_ns": ["QF.Props.C06", "QF.Props.C08"], "sections": [dict(hist("hist", []), cover_ops=None)]},
+    "C10": {"lean": ["QF.Props.C10", "QF.Props.C10Sticky", "QF.Props.C06", "QF.Props.C06Apply", "QF.Props.C08Project"], "extra_ns": ["QF.Props.C10Sticky", "QF.Props.C06", "QF.Props.C08"], "sections": [dict(hist("hist", []), cover_ops=None)]},
 }
 
 NOT_APPLICABLE = {}
